@@ -86,8 +86,10 @@ IP::IP(const uint8_t* buffer, uint32_t total_sz) {
     
     // While the end of the options is not reached read an option
     while (stream.pointer() < options_end) {
-        option_identifier opt_type = (option_identifier)stream.read<uint8_t>();
-        if (opt_type.number > NOOP) {
+        const uint8_t raw_opt_type = stream.read<uint8_t>();
+        option_identifier opt_type = (option_identifier)raw_opt_type;
+        // Only END and NOOP are single byte options
+        if (raw_opt_type > NOOP) {
             // Multibyte options with length as second byte
             const uint32_t option_size = stream.read<uint8_t>();
             if (TINS_UNLIKELY(option_size < (sizeof(uint8_t) << 1))) {
@@ -324,7 +326,8 @@ uint32_t IP::calculate_options_size() const {
         options_size += sizeof(uint8_t);
         const option_identifier option_id = iter->option();
         // Only add length field and data size for non [NOOP, EOL] options
-        if (option_id.op_class != CONTROL || option_id.number > NOOP) {
+        // (this has to match what write_option does)
+        if (option_id.copied || option_id.op_class != CONTROL || option_id.number > NOOP) {
             options_size += sizeof(uint8_t) + iter->data_size();
         }
     }
